@@ -475,7 +475,14 @@ func checkOnce(c Case) ([]evid.Violation, outcome, bool) {
 	if o.reads > 16+4*len(c.Body) {
 		return []evid.Violation{evid.V("spin", "spin-reads", "%d Read calls for a %d-byte body", o.reads, len(c.Body))}, o, false
 	}
-	if o.recv > len(c.Body)+1 {
+	// a compressed body may legitimately expand (deflate: at most ~1032:1) before it is found corrupt
+	maxMsgs := len(c.Body) + 1
+	for _, kv := range c.Headers {
+		if (strings.EqualFold(kv[0], "Content-Encoding") || strings.EqualFold(kv[0], "Grpc-Encoding")) && strings.Contains(strings.ToLower(kv[1]), "gzip") {
+			maxMsgs = 1100*len(c.Body) + 16
+		}
+	}
+	if o.recv > maxMsgs {
 		return []evid.Violation{evid.V("spin", "spin-messages", "handler received %d messages from a %d-byte body: the stream never ends", o.recv, len(c.Body))}, o, false
 	}
 	return nil, o, false
